@@ -641,7 +641,8 @@ func (r *ruler) v7() {
 			ok = strings.Join(seq, ";") == strings.Join(want, ";") &&
 				absint.Key(pa.Final["ip"]) == "(.Node("+fnv+"))" &&
 				condHas(pa, strings.Split(tf[0].Res, ", ")[1][:len(strings.Split(tf[0].Res, ", ")[1])-1]+" := true") &&
-				(condHas(pa, "!=(.ParamCnt("+fnv+"),A1) := false") || condHas(pa, "==(.ParamCnt("+fnv+"),A1) := true"))
+				(condHas(pa, "!=(.ParamCnt("+fnv+"),A1) := false") || condHas(pa, "==(.ParamCnt("+fnv+"),A1) := true") ||
+					condHas(pa, "!=(A1,.ParamCnt("+fnv+")) := false") || condHas(pa, "==(A1,.ParamCnt("+fnv+")) := true"))
 		}
 		if ok {
 			r.s.OK("V7", key, r.ppos(pa), "callee checked (function, arity), then PushFrame(args, LocalCnt), PushClosure(*Frame), Push(return address), ip = entry")
@@ -859,7 +860,7 @@ func (r *ruler) v10() {
 	}
 	ws := []want{
 		{"CALL", "ToFunction.1", "global value.ErrType", "calling a non-function is a type error"},
-		{"CALL", "=(.ParamCnt(", "global vm.ErrArity", "a wrong argument count is an arity error"},
+		{"CALL", ".ParamCnt(", "global vm.ErrArity", "a wrong argument count is an arity error"},
 		{"ATON", "ToString.1", "global value.ErrType", "aton of a non-string is a type error"},
 	}
 	// MOV: a missing value cannot be assigned to a variable (nil error), but
@@ -987,7 +988,7 @@ func (r *ruler) v10() {
 			if w.cond == "IsNil#" {
 				failing = strings.HasSuffix(c, ":= true")
 			}
-			if w.cond == "=(.ParamCnt(" {
+			if w.cond == ".ParamCnt(" {
 				// the counts differ
 				failing = strings.HasPrefix(c, "!=(") && strings.HasSuffix(c, ":= true") || strings.HasPrefix(c, "==(") && strings.HasSuffix(c, ":= false")
 			}
